@@ -678,15 +678,23 @@ class Interp:
             if const_sub:
                 e = z3.substitute(e, *const_sub)
             return e
+        rng = self.__dict__.setdefault("def_range", {})
         for d in new_defs:
-            self.defs.append(z3.ForAll(xs, rw(d)))
+            q = z3.ForAll(xs, rw(d))
+            self.defs.append(q)
+            rng[q.get_id()] = (c0, core._fresh_ctr[0], q)      # defines the lifted symbols created during this binder
         return [core.tmap(rw, tr) for tr in res]
 
     def define(self, axioms):
         """definitional axioms about fresh symbols (conservative extensions); attached to an obligation only
         when one of their symbols occurs in it"""
+        lo = getattr(self, "_def_lo", 0)
+        hi = core._fresh_ctr[0]
+        rng = self.__dict__.setdefault("def_range", {})
         for a in axioms:
             self.defs.append(a)
+            rng[a.get_id()] = (lo, hi, a)          # (the axiom is kept alive by self.defs / this entry: ids stay unique)
+        self._def_lo = hi
 
     # ------------------------------------------------------------------ uninterpreted helpers
     def ufunc(self, name, *sorts):
